@@ -25,14 +25,20 @@ func init() {
 			"Non-trivial+distinct = exact count of (mask, node) pairs enumerated with a partial mask (neither full nor leaf-only) + hash of (mask, path) for the sampled heights.",
 		Assumptions: []string{"masks in [1, 2^31); well-formed paths of the mask's height; PathToIndex only on stored levels",
 			"debug flavour liveness: three malformed paths must raise a contract panic there, otherwise the flavour is not really 'debug' and the run is inconclusive"},
-		Flavours: func(string) []string { return []string{"release", "debug"} },
-		Required: []string{"mask/full", "mask/leaf-only", "mask/partial", "node/root", "node/leaf", "node/absent-level", "node/stored-level", "h=30", "h>=11", "index>=2^30", "path/all-right", "path/all-left"},
+		Flavours: func(tier string) []string {
+			if tier == "thorough" {
+				return []string{"release", "debug", "386"}
+			}
+			return []string{"release", "debug"}
+		},
+		Required: []string{"mask/full", "mask/leaf-only", "mask/partial", "node/root", "node/leaf", "node/absent-level", "node/stored-level", "h=30", "h>=11", "index>=2^30", "path/all-right", "path/all-left", "sequence/related-masks-alternating"},
 		Families: func(c *mon.Config) []mon.Family {
 			hmax := c.Pick(10, 13)
 			return []mon.Family{
 				{Name: "contract-liveness", N: 1, Run: c03Liveness},
 				{Name: "all-masks-all-nodes", N: (1 << uint(hmax+1)) - 1, Run: c03AllSmall},
 				{Name: "large-heights", N: 20 * c.Pick(200, 20000), Run: c03Large},
+				{Name: "related-mask-sequences", N: c.Pick(600, 60000), Run: c03Sequences},
 			}
 		},
 		Merge: func(tier string, rs map[string]*mon.Result) []mon.Violation {
@@ -274,5 +280,54 @@ func c03Large(w *mon.W, idx int) {
 	w.Bucket("path/all-right")
 	w.Sample(func() interface{} {
 		return mon.D{"bitmapSize": fmt.Sprintf("%#b", mask), "height": h, "path_lengths": "0..h", "paths_per_length": 6, "oracle": "walk"}
+	})
+}
+
+// c03Sequences: consecutive calls alternate between RELATED level masks - X, and X with one more
+// high level bit (in particular X + 2^30), X with its lowest bit flipped, the full and leaf-only mask
+// of the same height - so that anything a call leaves behind for the next call (a memo keyed on a
+// truncated size, a cached classification) is used with a different mask right away.
+func c03Sequences(w *mon.W, idx int) {
+	r := w.Rng
+	hx := r.Intn(30)
+	fullX := (uint32(1) << uint(hx+1)) - 1
+	var x uint32
+	switch idx % 3 {
+	case 0:
+		x = fullX
+	case 1:
+		x = uint32(1) << uint(hx)
+	default:
+		x = uint32(1)<<uint(hx) | uint32(r.Uint64())&fullX
+	}
+	hy := hx + 1 + r.Intn(30-hx)
+	if idx%2 == 0 {
+		hy = 30
+	}
+	masks := []uint32{x, x | uint32(1)<<uint(hy), x ^ 1 | uint32(1)<<uint(hx), (uint32(1) << uint(hy+1)) - 1, uint32(1) << uint(hy)}
+	var ctxs []*c03Ctx
+	for _, m := range masks {
+		ctxs = append(ctxs, &c03Ctx{w: w, mask: m, h: bmHeight(m)})
+	}
+	cur := ctxs[0]
+	defer func() { cur.guard() }()
+	for step := 0; step < 40; step++ {
+		// X, then the related mask, alternating; every few steps another member of the family
+		cur = ctxs[0]
+		if step&1 == 1 {
+			cur = ctxs[1+(step/2)%4]
+		}
+		l := r.Intn(cur.h + 1)
+		m := (uint64(1) << uint(l)) - 1
+		prefix := []uint64{0, m, r.Uint64() & m}[r.Intn(3)]
+		ei, eh := bmWalkRank(cur.mask, cur.h, l, prefix)
+		if !cur.call(l, prefix, ei, eh) {
+			return
+		}
+	}
+	w.Bucket("sequence/related-masks-alternating")
+	w.Distinct(gen.Hash64(0x5e9, uint64(masks[0]), uint64(masks[1])))
+	w.Sample(func() interface{} {
+		return mon.D{"masks_alternated": []string{fmt.Sprintf("%#b", masks[0]), fmt.Sprintf("%#b", masks[1])}, "calls": 40}
 	})
 }
